@@ -219,6 +219,32 @@ def search(ctx):
             wsub = lp + stats.norm.logpdf((fsub.values - sub.values).ravel(), 0, sd).sum()
             if not (abs(lsub - wsub) <= 1e-9 * max(1, abs(wsub))):
                 ctx.violation("C12:subset", "lnposterior on a pixel subset %r != prior + Gaussian log-density on those pixels %r" % (lsub, wsub), info)
+            # the data in other, equally legitimate layouts -- pixel axes stored in another order, several heights, two colours:
+            # the residuals pair each pixel of the data with the forward hologram AT THAT PIXEL (by label, not by memory order)
+            if i % 2 == 0 and not lens:
+                layouts = {"dims (z, y, x)": d2.transpose('z', 'y', 'x'), "dims (x, y, z)": d2.transpose('x', 'y', 'z')}
+                for lname, dl in layouts.items():
+                    dl.attrs = dict(d2.attrs)
+                    ctx.tried("data-layout", (lname, nx, ny, i))
+                    l_lay = model.lnlike(pars, dl)
+                    if not (abs(l_lay - ll) <= 1e-9 * max(1, abs(ll))):
+                        ctx.violation("C12:data-layout", "the same %dx%d image stored with %s: lnlike %r, with the usual layout %r" % (nx, ny, lname, l_lay, ll), dict(layout=lname, **info))
+                        break
+                # several heights in one data set
+                detz = detector_grid((nx, ny), 0.1).isel(z=0, drop=True).expand_dims(z=[0.0, 0.7, 1.5]) if False else None
+                zs = [0.0, 0.6, 1.3]
+                stack = xr.concat([calc_holo(detector_grid((nx, ny), 0.1).assign_coords(z=[zz]), truth, theory=Mie(), scaling=alpha_true, **OPT) for zz in zs], dim='z')
+                stack = stack + rng.normal(size=stack.shape) * 0.02
+                stack = update_metadata(stack, noise_sd=sd, medium_index=OPT['medium_index'], illum_wavelen=OPT['illum_wavelen'], illum_polarization=OPT['illum_polarization'])
+                ctx.tried("data-layout", ("z-stack", nx, ny, i))
+                m_s = AlphaModel(sc, alpha=alpha, noise_sd=sd, theory=Mie(), **OPT)
+                l_s = impl_call(lambda: float(m_s.lnlike(pars, stack)))
+                if not isinstance(l_s, tuple):
+                    fw = m_s.forward(pars, stack)
+                    res = (fw - stack)       # aligned by coordinate labels
+                    w_s = float(stats.norm.logpdf(res.values.ravel(), 0, sd).sum())
+                    if not (abs(l_s - w_s) <= 1e-9 * max(1, abs(w_s))):
+                        ctx.violation("C12:data-layout:z-stack", "data at three heights: lnlike %r is not the Gaussian log-density %r of (forward - data) pixel by pixel" % (l_s, w_s), dict(layout="z-stack", **info))
             # call histories: the posterior depends on the VALUES it is given -- the same ndarray / list object evaluated again after
             # being edited in place (an optimiser's working vector), and the same values against data whose metadata was edited
             for cont in (np.array, list):
